@@ -20,8 +20,8 @@ func TestWorker(t *testing.T) {
 	}
 	seed0, _ := strconv.ParseInt(os.Getenv("KSIM_SEED0"), 10, 64)
 	stride, _ := strconv.ParseInt(os.Getenv("KSIM_STRIDE"), 10, 64)
-	if stride <= 0 {
-		stride = 1
+	if stride == 0 {
+		stride = 1 // negative strides walk the seeds backwards (selftest: different neighbours, same results)
 	}
 	count, _ := strconv.Atoi(os.Getenv("KSIM_COUNT"))
 	budget, _ := strconv.ParseFloat(os.Getenv("KSIM_BUDGET_S"), 64)
